@@ -255,6 +255,69 @@ func genC06(cs *CaseSet, rng *Rng, tier string, dir string) {
 				NonTrivial: reqAcc != tgtAcc},
 			nc: tnc, ip: ip, status: status, by: []*nullConn{b1c, b2c}})
 	}
+	// the target's ACCOUNT is edited while it is connected - first with the multi-user editor's request (UpdateUser),
+	// then confirmed with SetUser carrying the same bits, which is what brings connected sessions up to date - and only
+	// then somebody tries to disconnect it: the bits that count are the edited ones
+	discAfterEdit := func(kind string, reqAcc, oldAcc, newAcc hotline.AccessBitmap, opt []byte) {
+		serial++
+		ip := fmt.Sprintf("10.%d.%d.%d", 1+serial/65536, (serial/256)%256, serial%256)
+		login := fmt.Sprintf("edit%d", serial)
+		must(env.Srv.AccountManager.Create(hotline.Account{Login: login, Name: login, Password: hotline.HashAndSalt([]byte("")), Access: oldAcc}))
+		var all hotline.AccessBitmap
+		for i := range all {
+			all[i] = 255
+		}
+		editor, _ := env.NewClient("guest", all, "10.9.9.7:1")
+		target, tnc := env.NewClient(login, oldAcc, ip+":5500")
+		sub := encField(hotline.FieldUserLogin, obfuscate([]byte(login)))
+		sub = append(sub, encField(hotline.FieldUserName, []byte(login))...)
+		sub = append(sub, encField(hotline.FieldUserPassword, []byte{0})...)
+		sub = append(sub, encField(hotline.FieldUserAccess, newAcc[:])...)
+		ut := hotline.NewTransaction(hotline.TranUpdateUser, editor.ID, hotline.NewField(hotline.FieldData, append(be16(4), sub...)))
+		callHandler(mobius.HandleUpdateUser, editor, &ut)
+		st := hotline.NewTransaction(hotline.TranSetUser, editor.ID, hotline.NewField(hotline.FieldUserLogin, obfuscate([]byte(login))),
+			hotline.NewField(hotline.FieldUserName, []byte(login)), hotline.NewField(hotline.FieldUserAccess, newAcc[:]), hotline.NewField(hotline.FieldUserPassword, []byte{0}))
+		callHandler(mobius.HandleSetUser, editor, &st)
+		env.TakeSent()
+		env.Srv.ClientMgr.Delete(editor.ID)
+		admin, _ := env.NewClient("guest", reqAcc, "10.9.9.8:1")
+		fields := []hotline.Field{hotline.NewField(hotline.FieldUserID, target.ID[:])}
+		if opt != nil {
+			fields = append(fields, hotline.NewField(hotline.FieldOptions, opt))
+		}
+		t := hotline.NewTransaction(hotline.TranDisconnectUser, admin.ID, fields...)
+		res, panicked := callHandler(mobius.HandleDisconnectUser, admin, &t)
+		status := c06OtherErr
+		switch {
+		case panicked:
+			status = c06Panic
+		case isErrReply(res) && errText(res) == login+" is not allowed to be disconnected.":
+			status = c06Denied
+		case isErrReply(res):
+			status = c06OtherErr
+		case len(res) >= 1 && res[len(res)-1].IsReply == 1:
+			status = c06Created
+		}
+		env.Srv.ClientMgr.Delete(admin.ID)
+		pend = append(pend, pending{
+			c: Case{Kind: kind,
+				Ops:        []Op{mkOp(3, "DisconnectUser-after-account-edit", reqAcc[:], newAcc[:], opt, b1(opt == nil))},
+				NonTrivial: oldAcc != newAcc},
+			nc: tnc, ip: ip, status: status})
+	}
+	for k := 0; k < 30; k++ {
+		var oa, na hotline.AccessBitmap
+		copy(oa[:], rng.Bytes(8))
+		na = oa
+		if k%2 == 0 { // protection granted by the edit ...
+			oa[2] &^= 1
+			na.Set(23)
+		} else { // ... or taken away by it
+			oa.Set(23)
+			na[2] &^= 1
+		}
+		discAfterEdit("after-account-edit", bitmapOf(22), oa, na, [][]byte{nil, {0, 1}, {0, 2}}[k%3])
+	}
 	opts := [][]byte{nil, {0, 1}, {0, 2}, {0, 0}, {0, 3}}
 	for k := 0; k < 40; k++ {
 		var ta, b1a, b2a hotline.AccessBitmap
